@@ -9,7 +9,8 @@ RULE = ('cases: histories of up to 60 events over 3 thread ids x ~12 codes drawn
         'decodable ordinary name, the ten kernel trace-string/data names, known-but-undecoded names, ids unknown to '
         'the table) x the four qualifiers; built from single-event ops and macro ops (nested pair, crossing pair, '
         're-opened START, stray END, same code on two threads, START..NONE..END window, windows of 257..316 records). Timestamps are '
-        'increasing, decreasing or permuted (the stream order is the record order). Arguments are projected onto '
+        'increasing, decreasing or permuted (the stream order is the record order); a third of the histories reach the pairing object in 2..5 portions '
+        '(feed_generator per portion, every third portion record by record through feed). Arguments are projected onto '
         'each decoder\'s domain; the pairing object is built with an empty or an already populated thread map. Oracle (declarative, after EVERY step, over the whole history): a trace is emitted '
         'iff (END with an open START of the same thread+code and the code is decodable) or (NONE/ALL of a decodable '
         'code; continuation fragments may emit 0 or 1); an END window satisfies E_min <= ktraces <= E_max as '
@@ -105,16 +106,14 @@ def stamps(n, mode):
     return None
 
 
-def run_history(evs_abs, prepopulated=False, ts_mode='inc'):
+def run_history(evs_abs, prepopulated=False, ts_mode='inc', delivery=None):
     """feed events one by one; returns list (per step) of emitted trace or None, and the real event objects"""
     real = EV.realize(evs_abs, ts_list=stamps(len(evs_abs), ts_mode))
     # the thread/process tables may already be populated when the pairing object is built (a thread map read
     # earlier, a second request on one PyKdebugParser): pairing must not depend on that
     tp = {t: 10 + i for i, t in enumerate(TIDS)} if prepopulated else {}
     parser = EV.new_traces_parser(threads_pids=tp, pids_names={10: 'a', 11: 'b', 12: 'c'} if prepopulated else {})
-    emitted = []
-    for e in real:
-        emitted.append(parser.feed(e))
+    emitted = EV.deliver(parser, real, delivery)
     return real, emitted
 
 
@@ -122,7 +121,7 @@ def prop_history(ctx, case):
     evs = [list(e) for e in case['events']]
     hist = [(t, c, q) for t, c, q, _ in evs]
     decodable = set(EV.all_decodable())
-    real, emitted = guard(run_history, evs, bool(case.get('prepopulated')), case.get('ts', 'inc'))
+    real, emitted = guard(run_history, evs, bool(case.get('prepopulated')), case.get('ts', 'inc'), case.get('delivery'))
     ident = {id(o): k for k, o in enumerate(real)}
     exps = analyse(hist, decodable)
     texts = []
@@ -160,7 +159,7 @@ def prop_history(ctx, case):
     if stray:
         evs2 = [e for j, e in enumerate(evs) if j not in set(stray)]
         # keep original timestamps irrelevant: texts do not show them
-        _, emitted2 = guard(run_history, evs2, bool(case.get('prepopulated')), case.get('ts', 'inc'))
+        _, emitted2 = guard(run_history, evs2, bool(case.get('prepopulated')), case.get('ts', 'inc'), case.get('delivery'))
         texts2 = [guard(str, t) for t in emitted2 if t is not None]
         if texts2 != texts:
             raise Violation('stray-end-changes-output', f'with stray ENDs {texts} without {texts2}')
@@ -190,6 +189,7 @@ def prop_history(ctx, case):
     kinds = {kind_of(c) for _, c, _ in hist}
     cls |= {'kind:' + k for k in kinds}
     cls.add('timestamps:' + case.get('ts', 'inc'))
+    cls.add('delivered-in-portions' if case.get('delivery') else 'delivered-record-by-record')
     if any(e.get('window') and len(e['window'][2]) > 256 for e in exps):
         cls.add('window-over-256-records')
     nt = bool(cls & {'qualifier-3', 're-opened-start', 'same-code-two-threads', 'stray-end', 'crossing-pair'})
@@ -240,7 +240,8 @@ def history_strategy(max_ops=25, kinds=(0, 0, 0, 0, 1, 2, 3, 4, 5, 6, 7), max_ev
                     ev(ti, b if k % 3 else a + 1, 0 if k % 5 else 3, S.expand_words(seed, 10 + k))
                 ev(ti, a, 2, w3)
         s0 = ops[0][5] if ops else 0
-        return {'events': out[:max_events], 'prepopulated': bool(s0 & 1), 'ts': ['inc', 'inc', 'dec', 'perm'][(s0 >> 1) % 4]}
+        return {'events': out[:max_events], 'prepopulated': bool(s0 & 1), 'ts': ['inc', 'inc', 'dec', 'perm'][(s0 >> 1) % 4],
+                'delivery': None if (s0 >> 3) % 3 else [(s0 >> (5 + 3 * i)) % 61 for i in range(1 + (s0 >> 4) % 4)]}
 
     # decoders that read the records nested in their window get the same weight as a whole pool
     composite = [n for n in COMPOSITES if n in set(ordinary)]
